@@ -30,13 +30,15 @@ def run_config(rep, work, exe, d, prop, tier, cfg, gen_lines, idx):
         args.append("-lattice")
     if cfg.get("mintrain"):
         args.append("-mintrain")
+    if cfg.get("duptrain"):
+        args.append("-duptrain")
     if gen_lines:
         gp = os.path.join(sub, "gen.jsonl")
         open(gp, "w").write("\n".join(gen_lines) + "\n")
         args += ["-gen", gp]
     p = C.run_harness(exe, args)
     label = "%s/%s/dim%s%s" % (cfg["kind"], cfg["metric"], cfg["dim"], "/lattice" if cfg.get("lattice") else "")
-    for key in ("nlist", "M", "nbits", "mintrain"):
+    for key in ("nlist", "M", "nbits", "mintrain", "duptrain"):
         if key in cfg:
             label += "/%s%s" % (key, cfg[key])
     if p.returncode != 0:
